@@ -47,6 +47,7 @@ Definition lbl_eqb (a b : lbl) : bool :=
   | LDisc s n, LDisc s' n' => str_eqb s s' && str_eqb n n'
   | LEnv e p, LEnv e' p' => str_eqb e e' && Bool.eqb p p'
   | LRaise x, LRaise y => exn_eqb x y
+  | LAcquire, LAcquire => true
   | LOther x, LOther y => Nat.eqb x y
   | _, _ => false
   end.
@@ -68,7 +69,7 @@ Definition model_run (k : ccase) : cfg :=
 Definition model_trace (k : ccase) : list (list lbl) :=
   match k with
   | Case g su R causes sched _ _ _ =>
-      let '(m, env) := initial su in trace g R (init m env causes) sched
+      let '(m, env) := initial su in trace g R (init g m env causes) sched
   end.
 
 (* ---- correspondence: the model run on the same scenario and schedule ---- *)
@@ -160,18 +161,35 @@ Definition win_same (i : nat) (s n : str) (w : win) : bool :=
   negb (Nat.eqb (fst (fst w)) i) && str_eqb (snd (fst w)) s && str_eqb (snd w) n.
 Definition win_is (i : nat) (s n : str) (w : win) : bool :=
   Nat.eqb (fst (fst w)) i && str_eqb (snd (fst w)) s && str_eqb (snd w) n.
-Definition on_lbl (i : nat) (st : list win * bool) (x : lbl) : list win * bool :=
+(* a check that the same task repeats under the lock (its next access is the acquire) does not
+   open a window: only the check that is followed by the mark does *)
+Definition on_lbl (i : nat) (next : option lbl) (st : list win * bool) (x : lbl) : list win * bool :=
   match x with
-  | LCheck (Some s) n true => ((i, s, n) :: fst st, snd st || existsb (win_same i s n) (fst st))
+  | LCheck (Some s) n true =>
+      match next with
+      | Some LAcquire => st
+      | _ => ((i, s, n) :: fst st, snd st || existsb (win_same i s n) (fst st))
+      end
   | LMark s n _ => (filter (fun w => negb (win_is i s n w)) (fst st), snd st)
   | _ => st
   end.
-Fixpoint walk (sched : list nat) (tr : list (list lbl)) (st : list win * bool) : list win * bool :=
+Fixpoint flat_trace (sched : list nat) (tr : list (list lbl)) : list (nat * lbl) :=
   match sched, tr with
-  | i :: s, l :: t => walk s t (fold_left (on_lbl i) l st)
-  | _, _ => st
+  | i :: s, l :: t => map (fun x => (i, x)) l ++ flat_trace s t
+  | _, _ => []
   end.
-Definition double_check_seen (sched : list nat) (tr : list (list lbl)) : bool := snd (walk sched tr ([], false)).
+Fixpoint next_lbl (i : nat) (l : list (nat * lbl)) : option lbl :=
+  match l with
+  | [] => None
+  | (j, x) :: r => if Nat.eqb i j then Some x else next_lbl i r
+  end.
+Fixpoint walk (l : list (nat * lbl)) (st : list win * bool) : list win * bool :=
+  match l with
+  | [] => st
+  | (i, x) :: r => walk r (on_lbl i (next_lbl i r) st x)
+  end.
+Definition double_check_seen (sched : list nat) (tr : list (list lbl)) : bool :=
+  snd (walk (flat_trace sched tr) ([], false)).
 Definition keyerror_seen (log : list lbl) : bool :=
   existsb (fun x => match x with LMark _ _ (Err KeyError) => true | _ => false end) log.
 
